@@ -16,7 +16,7 @@ import (
 // C11 — Copier reproduces the source object graph.
 
 func init() {
-	addRun("C11", "random source graphs (dicts, arrays, scalars, reference chains and pure reference cycles, free/dangling/wrong-generation references, object-stream members, streams 0..5000 bytes with 0-3 filters, /Crypt Identity and unsupported crypt filters (also into targets whose Writer.Put refuses them: encrypted with /V < 4, or a non-Identity filter), typed nil Dicts and Arrays, indirect /Length via a non-seekable writer, indirect /Filter and /DecodeParms, null dictionary entries, injected malformed and I/O-failing objects; document-level metadata absent, ordinary or Plaintext (/EncryptMetadata false for encrypted sources >= 1.6) with non-catalog /Type /Metadata streams owned by dictionaries and XObject streams, /Type /XObject and untyped streams) written by the real Writer x programs of 1-6 Copy/CopyReference/Redirect calls (the object returned by Copy is written at once or only after 1-3 further calls; in a quarter of the cases a stream is open on the target Writer during the whole program, so that every Put is queued) x 8 source and 8 target versions x source/target passwords x seekable or not x human-readable target. A case is non-trivial when the program reaches at least two source objects; distinct by seed-independent shape (model input line).", runCPY)
+	addRun("C11", "random source graphs (dicts, arrays, scalars, reference chains and pure reference cycles, free/dangling/wrong-generation references, object-stream members, streams 0..5000 bytes with 0-3 filters, /Crypt Identity and unsupported crypt filters (also into targets whose Writer.Put refuses them: encrypted with /V < 4, or a non-Identity filter), typed nil Dicts and Arrays, indirect /Length via a non-seekable writer, indirect /Filter and /DecodeParms, null dictionary entries, injected malformed and I/O-failing objects; document-level metadata absent, ordinary or Plaintext (/EncryptMetadata false for encrypted sources >= 1.6) with non-catalog /Type /Metadata streams owned by dictionaries and XObject streams, /Type /XObject and untyped streams) written by the real Writer, plus files encrypted by the Lean Spec in which /StmF, /StrF and /EFF select StdCF or Identity independently (RC4 V2, AESV2, AESV3 x 8 selections; strings, ordinary, /EmbeddedFile and metadata streams with known plaintexts) x programs of 1-6 Copy/CopyReference/Redirect calls (the object returned by Copy is written at once or only after 1-3 further calls; in a quarter of the cases a stream is open on the target Writer during the whole program, so that every Put is queued) x 8 source and 8 target versions x source/target passwords x seekable or not x human-readable target. A case is non-trivial when the program reaches at least two source objects; distinct by seed-independent shape (model input line).", runCPY)
 	addReplay("C11", "copier", replayCPY)
 	setCanon("C11", canonReals)
 }
@@ -1273,6 +1273,23 @@ func runCpyCase(cs *cpyCase, thorough bool) (res cpyResult) {
 			}
 		}
 	}
+	if cs.foreign != nil {
+		for i, oc := range outs {
+			if res.key != "" || !oc.ok || i >= len(executed) {
+				continue
+			}
+			op := executed[i]
+			if op.kind != "cr" && op.kind != "cg" {
+				continue
+			}
+			if _, isRedirected := redirected[op.ref]; isRedirected {
+				continue
+			}
+			if it := cs.foreign.item(op.ref); it != nil {
+				res.key, res.desc = cpyEffTruth(T, cs.foreign, it, oc.ref)
+			}
+		}
+	}
 	for _, ref := range refusedRefs {
 		if res.key != "" {
 			break
@@ -1544,6 +1561,12 @@ func replayCPY(input string) (bool, string) {
 		if cs == nil {
 			return true, "unknown corpus case"
 		}
+	} else if parts[0] == "eff" {
+		var msg string
+		cs, msg = cpyEffReplay(parts[1])
+		if cs == nil {
+			return true, msg
+		}
 	} else {
 		seed, err := strconv.ParseUint(parts[0], 10, 64)
 		if err != nil {
@@ -1589,6 +1612,44 @@ func runCPY(c *Ctx) {
 		c.Sample(cs.describe() + " => " + res.line)
 		if res.key != "" {
 			c.Violate("copier", res.key, cs.describe()+": "+res.desc, "corpus "+name)
+		}
+	}
+	// sources in which /StmF, /StrF and /EFF select StdCF or Identity independently (made by the Spec)
+	nEff := 72
+	if c.Thorough {
+		nEff = 480
+	}
+	effCases, effInputs, effSkipped := genCpyEffCases(&Rand{s: rr.U64()}, nEff)
+	for _, why := range effSkipped {
+		c.Stat("crypt-filter-selection source not used")
+		c.Sample("not used: " + firstWords(why, 40))
+	}
+	if len(effCases)*2 < nEff {
+		why := "no case"
+		if len(effSkipped) > 0 {
+			why = effSkipped[0]
+		}
+		c.Violate("copier", "harness-cannot-build-sources", fmt.Sprintf("only %d of %d Spec-made sources with crypt filter selections could be used, first: %s", len(effCases), nEff, why), "corpus none")
+	}
+	for i, cs := range effCases {
+		res := runCpyCase(cs, c.Thorough)
+		if res.line == "skip" {
+			c.Stat("skipped: " + firstWords(res.desc, 3))
+			continue
+		}
+		if !res.noEmit {
+			c.Emit(res.opLine, res.line)
+		}
+		c.Case(cpyHash(res.opLine), res.reached >= 2)
+		for f := range cs.features {
+			c.Stat("feature " + f)
+		}
+		c.Stat(fmt.Sprintf("tgt %s enc=%v", cs.tgtVer, cs.tgtPw != ""))
+		if i < 2 {
+			c.Sample(cs.describe() + " => " + res.line)
+		}
+		if res.key != "" {
+			c.Violate("copier", res.key, cs.describe()+": "+res.desc, effInputs[i])
 		}
 	}
 	for i := 0; i < n; i++ {
